@@ -204,6 +204,7 @@ PROPS["C18"] = {
         "lenient mode; `user_namespace_privilege!` yields an object whose check_* answers are fresh Booleans; calls through the shared application data are data accesses; a data access built from a "
         "namespace source needs an earlier check on a term built from the same source that the path took as true, or carries the privilege object (listing delegated to the index filters). Weaker than "
         "equality of the checked and the used term. Handlers addressed by id only (MCP get / update / remove / publish by id) name no namespace and are outside. Nine MCP handlers are known findings (S18-b)",
+        "s18_4: a request parameter web::Json<Vec<T>> is a list with one element whose fields are symbolic (the handlers treat the elements alike; lists of length 1)",
         "s18_4 also evaluates the handler functions of other modules that console routes point to (eight OpenAPI handlers of the v1 console API; struct definitions are scoped per handler file) and applies the rule "
         "'composed-key': config_route.set_config / del_config with a key built from request strings needs ConfigKey::is_valid taken as Ok; s18_5_composed_key: build_key, From<&str> for ConfigKey, is_valid from source, dataId / group / tenant "
         "as sequences of separator-free pieces (0..=2 separators inside each, symbolic), param_utils::is_valid evaluated on the separator and on plain names; four mounted OpenAPI handlers are known findings (S18-c)",
@@ -423,6 +424,12 @@ for _pid in ("C11", "C12"):
     PROPS[_pid]["files"] = ["src/naming/service.rs", "src/naming/model.rs", "src/naming/core.rs", "src/naming/service_index.rs"]
     PROPS[_pid]["assumptions"].append("actor level (s11_2 / s12_2): NamingActor::{update_instance, remove_instance, remove_client_instance} are evaluated from source on one service with two "
                                       "addresses, connections c1 / c2, single node (no process range); subscriber / cluster notifications are sinks; get_hash_value is a constant")
+PROPS["C05"]["assumptions"] = list(PROPS["C05"].get("assumptions", [])) + [
+    "s05_4: a membership save is the uniform [1, 2] or the joint membership [1, 2, 3] -> [2, 3, 4] of a mid-change snapshot header; a save without a joint half keeps the stored one (what the handler does; "
+    "r-nacos itself never produces a joint configuration), so joint saves come last in a history; members and members_after_consensus are both compared, in-process and after a restart"]
+PROPS["C17"]["assumptions"] = list(PROPS["C17"].get("assumptions", [])) + [
+    "s17_2: UserRole::new from source on an arbitrary role string outside {'0', '1', '2'} (length < 6), alone and next to the visitor role; str::parse on a symbolic string = optional '+' then digits "
+    "(z3 str.to_int), integer width assumed u64"]
 PROPS["C13"]["assumptions"].append("s13_expiry: the alphabet has the step 'HTTP-side write (beat / re-registration / console edit) to the registered address, handled by this node as the service's owner' "
                                    "(from_cluster 0, empty client id - what NamingActor::update_instance hands to Service::update_instance for an in-range service), at the time of the preceding step; "
                                    "'gRPC-connected' and 'owned by this node' in the tick oracle follow a reference of what the registrations said (an HTTP-side write to a gRPC-connected ephemeral instance leaves it gRPC-connected), not the stored flags")
